@@ -794,6 +794,26 @@ inductive Resolves (dm : Id → Option Desc) : Id → Resolved → Prop
 
 def Resolvable (dm : Id → Option Desc) (id : Id) : Prop := ∃ r, Resolves dm id r
 
+/-- the reference chain of `id`: its description, the description it refers to, … down to one without
+reference -/
+inductive Chain (dm : Id → Option Desc) : Id → List Desc → Prop
+  | root {id : Id} {d : Desc} : dm id = some d → d.parent = none → Chain dm id [d]
+  | step {id p : Id} {d : Desc} {ds : List Desc} :
+      dm id = some d → d.parent = some p → Chain dm p ds → Chain dm id (d :: ds)
+
+/-- the first colour slot along the chain that says something: a colour, or `"-"` (terminal default) -/
+def firstSpec : List Part → Option Color
+  | [] => none
+  | .unspec :: r => firstSpec r
+  | .dflt :: _ => none
+  | .col c :: _ => some c
+
+/-- the modifiers of a chain: those of the far end, overlaid by each description on the way back -/
+def chainMods : List Desc → Mods
+  | [] => []
+  | [d] => d.mods
+  | d :: ds => mergeMods (chainMods ds) d.mods
+
 /-- the same by recursion along the parent chain, `fuel` = number of chain links that may be followed -/
 def resolveSpec (dm : Id → Option Desc) : Nat → Id → Option Resolved
   | 0, _ => none
